@@ -93,6 +93,7 @@ def compare(identity, occs, nbits, pad, extra, out, labelmsm=1):
     return got
 
 
+@core.guard
 def judge(case):
     out = core.Outcome()
     identity = case["id"]
